@@ -29,7 +29,7 @@ EXHAUSTIVE_NOTE = "for the 9 base configurations every crash point of the first 
 ASSUMPTIONS = ["a crash is a BaseException raised at an instrumented call in the harness process; open handles are then closed "
                "(flushed) by the harness: a power cut tearing unflushed buffers is not modelled",
                "no crash is injected between the mkdir calls of _prepare_files (not in the property's list of interruption points)"]
-BUDGET = {"quick": 800, "thorough": 4000}
+BUDGET = {"quick": 800, "thorough": 40000}
 SHRINK = {"quick": False, "thorough": True}
 WINDOW = 1200
 
